@@ -13,7 +13,9 @@ Transcription of
   `maxTime`;
 * `common: handleRegistrySectorLockTimeout` (recoverable only when the error's `UserData` is a `*LockKey`,
   which is what `lockFileBlockRegionWithRetry` produces; the two loops of `findAndAdd` put a slice there);
-* `cache/l2inmemorycache.go: Lock / Unlock / IsLocked` — all-or-nothing over keys sorted by name, TTL.
+* `cache/l2inmemorycache.go: Lock / Unlock / IsLocked` — all-or-nothing over keys sorted by name, TTL;
+* Part 3: `common/itemactiontracker.go: lock / checkTrackedItems / unlock`, the re-registration of
+  `common/managebtree.go: refetchAndMergeClosure`, and their call sites — the item lock records of one transaction.
 
 The clock is abstract: every backend decision (`Ev`) carries the amount `dt` by which the clock advanced
 while that call was in flight; it may be any natural number. Time unit: milliseconds.
